@@ -417,18 +417,22 @@ def run(ctx):
     if mode_item:
         mvars = {v["discr"]: v["name"] for v in mode_item["variants"]}
         mname = {v["name"]: names["mode"][v["name"]][0] for v in mode_item["variants"]}
+        # the mode predicates, by role: every bool-returning method of the mode enum that is a table over its variants (whatever its name)
         preds = {}
         for b in prog.prod_bodies():
-            if b.impl_self_def == mode_item["path"] and b.method in ("enable_tcp", "enable_udp", "enable_quic") and b.root == b.defp:
+            if b.impl_self_def == mode_item["path"] and b.root == b.defp and b.local_ty(0) == "bool" and b.argc == 1:
                 sw = _self_switch(b)
                 if sw is None:
                     continue
                 tab = enum_fn_table(b, sw, nvariants=len(mvars))
-                preds[b.method] = ({mname[mvars[v]] for v, k in tab.items() if k == 1}, b)
+                preds[b.defp] = ({mname[mvars[v]] for v, k in tab.items() if k == 1}, b)
         ctx.floor("G3", "mode predicates", 3, len(preds))
-        want = {"enable_tcp": {"tcp", "tcp_and_udp", "tcp_and_quic"}, "enable_udp": {"udp", "tcp_and_udp"}, "enable_quic": {"quic", "tcp_and_quic"}}
-        for p, (got, b) in preds.items():
-            ctx.ob("G3", b.defp, "predicate-table", loc(b.sp), got == want[p], f"{p} is true for {sorted(got)}; README: {sorted(want[p])}", ordinal=False)
+        want = {"tcp": {"tcp", "tcp_and_udp", "tcp_and_quic"}, "udp": {"udp", "tcp_and_udp"}, "quic": {"quic", "tcp_and_quic"}}
+        for p, (got, b) in sorted(preds.items()):
+            which = [k for k, v in want.items() if v == got]
+            ctx.ob("G3", b.defp, "predicate-table", loc(b.sp), bool(which),
+                   f"true for {sorted(got)}: the README's {which[0]} listener set" if which else
+                   f"true for {sorted(got)}: not one of the README's listener sets {[sorted(v) for v in want.values()]}", ordinal=False)
 
         # listeners reached per mode value (finite-configuration evaluation)
         def labeller(body, blk, c, t):
@@ -449,8 +453,8 @@ def run(ctx):
 
         def mk_oracle(modeval):
             def oracle(c):
-                if c.method in preds and c.impl_self and (c.impl_self.get("d") == mode_item["path"]):
-                    return modeval in preds[c.method][0]
+                if c.target in preds:
+                    return modeval in preds[c.target][0]
                 return None
             return oracle
 
@@ -478,7 +482,8 @@ def run(ctx):
         names_ = [(blk, c, t) for (blk, c, t) in b.calls() if c.target.endswith("aead_2022::password_to_keys") or c.target.endswith("aead::openssl_bytes_to_key")]
         if names_:
             key_fns.append((b, names_))
-    ctx.floor("G4", "functions deriving a Shadowsocks key from the configured password", 4, len(key_fns))
+    ctx.floor("G4", "functions deriving a Shadowsocks key from the configured password", 2, len(key_fns))
+    ctx.floor("G4", "key-derivation call sites (PSK parser / EVP_BytesToKey)", 4, sum(len(v) for (_, v) in key_fns))
     for (b, sites) in key_fns:
         gate_calls = [(blk, c, t) for (blk, c, t) in b.calls() if c.method == "is_aead_2022"]
         for (blk, c, t) in sites:
